@@ -15,7 +15,7 @@ from simkit.runner import Outcome
 
 PROPERTY = 'C03'
 LEVEL = 'exploration'
-PLAN = {'quick': [('prog', 12000)], 'thorough': [('prog', 250000)]}
+PLAN = {'quick': [('prog', 12000)], 'thorough': [('prog', 2500000)]}
 TIMEOUT = {'quick': 900, 'thorough': 6 * 3600}
 RULE = ('each run: random acyclic spec (3-9 nodes of Constant/Operation/Prior/Simulator/'
         'Summary/Discrepancy, fan-in/out, positional + named edges, shared and inline '
